@@ -23,7 +23,9 @@ Shapes == {
     vals |-> {S(<<"a">>), S(<<"a", "b">>), S(<<"1", "2">>), S(<<"a", "-", "b">>),
               \* characters that are structural in *some* cell or in the URL syntax, never in this one (Defined)
               S(<<"a", " ", "b">>), S(<<"a", "\t", "b">>), S(<<"a", "+", "b">>), S(<<"5", "%", "2", "0">>), S(<<"a", "&", "b", "=">>),
-              S(<<"a", ",", "b">>), S(<<"a", "|", "b">>)}, garbage |-> {}],
+              S(<<"a", ",", "b">>), S(<<"a", "|", "b">>),
+              \* values that BEGIN with the characters of a path style's prefix ("." for label, ";p=" for matrix)
+              S(<<".", "a">>), S(<<"p", "a">>), S(<<";", "p", "=", "a">>)}, garbage |-> {}],
    [id |-> "arrint", schemas |-> {[type |-> "array", items |-> TInt], [type |-> "array", items |-> TInt, maxItems |-> 2]},
     vals |-> {Arr(<<Num(28)>>), Arr(<<Num(4), Num(8)>>), Arr(<<Num(12), Num(0), Num(48)>>)}, garbage |-> {"nonnumeric"}],
    [id |-> "arrstr", schemas |-> {[type |-> "array", items |-> TStr]},
@@ -66,27 +68,31 @@ DecoyOK(c, v) == ~(v.t = "obj" /\ c.style # "deepObject") /\ ~(c.style = "deepOb
 
 VARIABLE case
 Init ==
-   \/ \E c \in Cells, sh \in Shapes, r \in BOOLEAN, d \in BOOLEAN, df \in BOOLEAN, ot \in BOOLEAN :
+   \* ot: what else the request carries -- nothing, an unrelated query parameter z, or an entry named "P" (query names and
+   \* cookie names are case-sensitive: it is not the parameter "p")
+   \/ \E c \in Cells, sh \in Shapes, r \in BOOLEAN, d \in BOOLEAN, df \in BOOLEAN, ot \in {"-", "z", "upper"} :
         \E s \in sh.schemas, v \in sh.vals :
            /\ Defined(c, v) /\ (c.in = "path" => r) /\ (d => DecoyOK(c, v))
            /\ (sh.id = "deep" => c.style = "deepObject")
-           /\ (df => HasDefault(sh, s) /\ ~d) /\ (ot => c.in = "query" /\ ~d /\ ~df)
+           /\ (df => HasDefault(sh, s) /\ ~d) /\ (ot \in {"z", "upper"} => ~d /\ ~df)
+           /\ (ot = "z" => c.in = "query") /\ (ot = "upper" => c.in \in {"query", "cookie"})
            /\ case = [cell |-> c, shape |-> sh.id, schema |-> WithDefault(sh, s, df), required |-> r, presence |-> "present", v |-> v,
-                      wire |-> Wire(c, "p", v), decoy |-> d, defaults |-> df, other |-> ot]
+                      wire |-> Wire(c, "p", v), decoy |-> d, defaults |-> df, other |-> (ot = "z"), upper |-> (ot = "upper")]
    \* absent: alone, next to a decoy, next to an unrelated query parameter ("other"), and with a schema default that
    \* validation is asked to install (defaults): a default never stands in for a required parameter
-   \/ \E c \in Cells, sh \in Shapes, r \in BOOLEAN, d \in BOOLEAN, df \in BOOLEAN, ot \in BOOLEAN :
+   \/ \E c \in Cells, sh \in Shapes, r \in BOOLEAN, d \in BOOLEAN, df \in BOOLEAN, ot \in {"-", "z", "upper"} :
         \E s \in sh.schemas :
            /\ Defined(c, SomeVal(sh)) /\ (c.in = "path" => r) /\ (d => DecoyOK(c, SomeVal(sh)))
            /\ (sh.id = "deep" => c.style = "deepObject")
-           /\ (df => HasDefault(sh, s) /\ ~d) /\ (ot => c.in = "query" /\ ~d)
+           /\ (df => HasDefault(sh, s) /\ ~d) /\ (ot \in {"z", "upper"} => ~d)
+           /\ (ot = "z" => c.in = "query") /\ (ot = "upper" => c.in \in {"query", "cookie"})
            /\ case = [cell |-> c, shape |-> sh.id, schema |-> WithDefault(sh, s, df), required |-> r, presence |-> "absent",
-                      v |-> SomeVal(sh), decoy |-> d, defaults |-> df, other |-> ot]
+                      v |-> SomeVal(sh), decoy |-> d, defaults |-> df, other |-> (ot = "z"), upper |-> (ot = "upper")]
    \/ \E c \in Cells, sh \in Shapes, r \in BOOLEAN :
         \E s \in sh.schemas, g \in sh.garbage \cup (IF sh.id = "int" THEN {"noprefix"} ELSE {}) :
            /\ GarbageOK(c, sh, g) /\ (c.in = "path" => r)
            /\ case = [cell |-> c, shape |-> sh.id, schema |-> s, required |-> r, presence |-> "garbage",
-                      g |-> g, v |-> SomeVal(sh), wire |-> Garbage(c, "p", g), decoy |-> FALSE, defaults |-> FALSE, other |-> FALSE]
+                      g |-> g, v |-> SomeVal(sh), wire |-> Garbage(c, "p", g), decoy |-> FALSE, defaults |-> FALSE, other |-> FALSE, upper |-> FALSE]
    \* emptiness: the parameter is there, its value is the empty text ("p=", "X-P:", "p=" in the cookie)
    \/ \E c \in Cells, sh \in Shapes, r \in BOOLEAN, ae \in BOOLEAN :
         \E s \in sh.schemas :
@@ -94,7 +100,7 @@ Init ==
            /\ sh.id \in {"int", "num", "bool", "str", "arrint"} /\ Defined(c, SomeVal(sh))
            /\ (ae => c.in = "query")                   \* allowEmptyValue exists for query parameters only
            /\ case = [cell |-> c, shape |-> sh.id, schema |-> s, required |-> r, presence |-> "empty", allowEmpty |-> ae,
-                      v |-> SomeVal(sh), decoy |-> FALSE, defaults |-> FALSE, other |-> FALSE,
+                      v |-> SomeVal(sh), decoy |-> FALSE, defaults |-> FALSE, other |-> FALSE, upper |-> FALSE,
                       wire |-> (CASE c.in = "query" -> [kind |-> "query", pairs |-> <<Pair("p", "")>>]
                                   [] c.in = "header" -> [kind |-> "header", val |-> ""]
                                   [] c.in = "cookie" -> [kind |-> "cookie", val |-> ""])]
